@@ -35,10 +35,11 @@ import (
 	"verif/runner/kit"
 )
 
-const (
-	verifRoot = "/verif"
-	repoRoot  = "/repo"
-)
+const verifRoot = "/verif"
+
+// repoRoot is /repo; VERIF_REPO points a run at a scratch worktree instead (used only to try
+// mutations without touching /repo — registered commands never set it).
+var repoRoot = envOr("VERIF_REPO", "/repo")
 
 // ---- configuration -------------------------------------------------------------------
 
@@ -647,6 +648,18 @@ func (r *run) runHarness(st harnessStage) {
 		args = append(args, "-overlay", ov)
 	case "ext":
 		dir = filepath.Join(verifRoot, "runner")
+		if repoRoot != "/repo" {
+			mod, err := os.ReadFile(filepath.Join(dir, "go.mod"))
+			if err != nil {
+				r.infraf("harness %s: %v", name, err)
+				return
+			}
+			mod = bytes.ReplaceAll(mod, []byte("=> /repo"), []byte("=> "+repoRoot))
+			_ = os.WriteFile(filepath.Join(out, "go.mod"), mod, 0o644)
+			sum, _ := os.ReadFile(filepath.Join(dir, "go.sum"))
+			_ = os.WriteFile(filepath.Join(out, "go.sum"), sum, 0o644)
+			args = append(args, "-modfile", filepath.Join(out, "go.mod"))
+		}
 	default:
 		r.infraf("harness %s: unknown kind %q", name, st.Kind)
 		return
